@@ -58,6 +58,15 @@ def run(ck):
         for n in range(5):
             cases.append("src %s %s" % (hexs([0x31 + i for i in range(n)]), " ; ".join(hist)))
     n_src = len(cases) - n_exh
+    # requests near the top of the address space, after some bytes were read: refused like any request beyond the end (the model is given a large count it can hold)
+    HUGE = {"pk 18446744073709551615": "pk 5001", "pk 18446744073709551614": "pk 5000", "rk 18446744073709551614": "rk 5000", "pk 9223372036854775808": "pk 5002", "rk 9223372036854775808": "rk 5002"}
+    huge_cases = []
+    for pre in itertools.product(["r1", "rk 2", "p1", "pk 1"], repeat=2):
+        for hg in HUGE:
+            for post in ("r1", "pk 2", "rk 3"):
+                for nlen in (0, 1, 3, 4):
+                    huge_cases.append("src %s %s" % (hexs([0x31 + i for i in range(nlen)]), " ; ".join(list(pre) + [hg, post])))
+    cases += huge_cases
     # random long histories, sizes up to 4 KiB
     nrand = 300 if ck.tier == "quick" else 3000
     for _ in range(nrand):
@@ -81,7 +90,13 @@ def run(ck):
                      else ("vec %s%s %s" % (hexs([rng.randrange(256) for _ in range(rng.choice([0, 3]))]), rng.choice(["", "", "+1", "+7", "+64", "+300", "+5000"]), h)))
     # the model has no notion of capacity for the growable target: it sees the same history without the spare-capacity mark
     import re as _re
-    m = core.run_model("buffer", [_re.sub(r"^vec (\S+?)\+\d+ ", r"vec \1 ", c) for c in cases], chunk=20000, timeout=600)
+    def for_model(c):
+        c = _re.sub(r"^vec (\S+?)\+\d+ ", r"vec \1 ", c)
+        if c.startswith("src "):
+            for big_, small_ in HUGE.items():
+                c = c.replace(big_, small_)
+        return c
+    m = core.run_model("buffer", [for_model(c) for c in cases], chunk=20000, timeout=600)
     o = core.run_impl("buffer", cases, chunk=20000, timeout=600)
 
     def classify(c, mo, oo):
@@ -106,7 +121,7 @@ def run(ck):
     for i in spec_bad[:3]:
         ck.violation("histories", "model-vs-spec", cases[i], "model = specification log (theorem C12_slice_refines_log)", m[i], kind="correspondence")
     ck.stream("histories", description="lock-step histories: result, position, contents (with guard bytes) and reservation ranges after every operation; model and append-only-log specification run side by side",
-              exhaustive_part="all %d^%d op sequences x capacities 0..4 (slice) and vec with spare capacity 0/1/2/5; all %d^%d read/peek sequences x buffer lengths 0..4" % (len(alpha), L, len(ralpha), L),
+              exhaustive_part="all %d^%d op sequences x capacities 0..4 (slice) and vec with spare capacity 0/1/2/5; all %d^%d read/peek sequences x buffer lengths 0..4; reads and peeks of 2^63 and of nearly 2^64 bytes after every two-step prefix" % (len(alpha), L, len(ralpha), L),
               exhaustive_cases=n_exh + n_src, random_cases=nrand)
     ck.extra["exhaustive"] = True
     ck.extra["rule"] = ("bounded-exhaustive: every sequence of %d operations over {write byte, write k, reserve k, write k into reservation r (r in 0..1)} with k in 0..3 on "
